@@ -486,22 +486,23 @@ class Trace:
 
 
 def _reach_ids(root):
-    seen, todo = set(), [root]
+    """id -> object for everything reachable from root (the objects are kept alive: ids of dead objects can be reused by CPython)"""
+    seen, todo = {}, [root]
     while todo:
         v = todo.pop()
         if id(v) in seen:
             continue
         if isinstance(v, Obj):
-            seen.add(id(v))
+            seen[id(v)] = v
             todo.extend(v.fields.values())
         elif isinstance(v, (list, tuple)):
-            seen.add(id(v))
+            seen[id(v)] = v
             todo.extend(v)
         elif isinstance(v, dict):
-            seen.add(id(v))
+            seen[id(v)] = v
             todo.extend(v.values())
         elif isinstance(v, SymList):
-            seen.add(id(v))
+            seen[id(v)] = v
     return seen
 
 
